@@ -685,7 +685,7 @@ theorem cumeLoop_spec {p : List Nat} (P : Peers eqv p) : ∀ (rest pre0 : List N
       rw [hb]
       have := ih (pre0 ++ h :: run) x [] (by simp [hp]) (by simp)
       simp only [List.length_append, List.length_cons] at this
-      simp only [List.length_cons, List.nil_append] at this ⊢
+      simp only [List.length_cons] at this ⊢
       rw [this]
       rfl
 
@@ -786,7 +786,7 @@ theorem percentLoop_spec {p : List Nat} (P : Peers eqv p) : ∀ (rest pre0 : Lis
       rw [hb]
       have := ih (pre0 ++ h :: run) x [] (by simp [hp]) (by simp) (run_break eqv P hp hrun hpre hx')
       simp only [List.length_append, List.length_cons] at this
-      simp only [List.length_cons, List.nil_append] at this ⊢
+      simp only [List.length_cons] at this ⊢
       rw [this]
       rfl
 
